@@ -1,6 +1,6 @@
 (** * Executable instances of Model/TetMesh.v for the correspondence check (binary64). *)
 From Coq Require Import List ZArith PrimFloat.
-From D3 Require Import Base.Ops Base.Vec Model.TetSym Model.TetMesh.
+From D3 Require Import Base.Ops Base.Vec Model.TetSym Model.TetMesh Model.TetMeshProc.
 Import ListNotations.
 
 Definition enc_mesh (m : @mesh float) : list (float * float * float) * list tet * list float :=
@@ -9,9 +9,22 @@ Definition enc_mesh (m : @mesh float) : list (float * float * float) * list tet 
 Definition run_cube (size : float) := enc_mesh (cube_mesh (O := FOps) size).
 Definition run_box (sx sy sz : float) := enc_mesh (box_mesh (O := FOps) sx sy sz).
 Definition class_code (c : cyl_class) : Z := match c with Long => 0 | Medium => 1 | Short => 2 end%Z.
-Definition run_cyl (radius length : float) (rim : list (float * float)) :=
-  (class_code (cyl_classify (O := FOps) radius length), enc_mesh (cyl_mesh (O := FOps) radius length rim)).
+(** [trig]: (cos, sin) of the rim angles *)
+Definition run_cyl (radius length : float) (trig : list (float * float)) :=
+  (class_code (cyl_classify (O := FOps) radius length), enc_mesh (cyl_mesh (O := FOps) radius length trig)).
 (** triangles, next free vertex id, size of the cache left over, parents of created vertices *)
 Definition run_ico (order : nat) :=
   let '(ts, st) := ico_topology order in
   (ts, ic_next st, Z.of_nat (length (ic_cache st)), ic_created st).
+Definition run_sphere (radius : float) (order : nat) := enc_mesh (sphere_mesh (O := FOps) radius order).
+Definition run_ellipsoid (rx ry rz : float) (order : nat) := enc_mesh (ellipsoid_mesh (O := FOps) rx ry rz order).
+Definition run_capsule (radius height : float) (circ ring : list (float * float)) :=
+  enc_mesh (capsule_mesh (O := FOps) radius height circ ring).
+
+(** helpers on V[E] of a mesh given as vertex triples and elements *)
+Definition dec_verts (vs : list (float * float * float)) : list (V3 float) :=
+  map (fun '(x, y, z) => V x y z) vs.
+Definition run_helpers (vs : list (float * float * float)) (ts : list tet) :=
+  let tps := mesh_tetpts (dec_verts vs) ts in
+  let com := mesh_com (O := FOps) tps in
+  (mesh_volumes (O := FOps) tps, mesh_aabbs (O := FOps) tps, (vx com, vy com, vz com)).
